@@ -48,12 +48,20 @@ type Case struct {
 	Items    []string // catalogue items, each "name@pos"
 	TimeOf   int      // -1 nil; else index of the certificate whose bound is used
 	TimeKind string   // notbefore | notafter | before | after | mid
+	// History, if set, makes the case a *sequence* of validations in one process:
+	// the conforming chain and a variant that keeps every certificate of it
+	// byte-identical except the one at HistPos+1 (see histories)
+	History string
+	HistPos int
 }
 
 func (c Case) desc() string {
 	t := "nil"
 	if c.TimeOf >= 0 {
 		t = fmt.Sprintf("%s(cert %d)", c.TimeKind, c.TimeOf)
+	}
+	if c.History != "" {
+		return fmt.Sprintf("ts=%v len=%d keys=%d history=%s issuer-position=%d", c.TS, c.Len, c.KeyMix, c.History, c.HistPos+1)
 	}
 	return fmt.Sprintf("ts=%v len=%d keys=%d items=%v time=%s", c.TS, c.Len, c.KeyMix, c.Items, t)
 }
@@ -870,11 +878,124 @@ func run(r *core.Run, ts bool) int {
 			r.Sample("chain", c.desc())
 		}
 	})
-	reqs := []core.Require{{Counter: "accepted", Why: "no chain accepted"}, {Counter: "rejected", Why: "no chain rejected"}, {Counter: "revocation-route", Why: "revocation validator never consulted"}}
+	for _, h := range historyCases(ts) {
+		history(r, h)
+		r.Nontrivial(h.desc())
+	}
+	reqs := []core.Require{{Counter: "history-steps", Why: "no validation history on byte-identical certificates ran"}, {Counter: "accepted", Why: "no chain accepted"}, {Counter: "rejected", Why: "no chain rejected"}, {Counter: "revocation-route", Why: "revocation validator never consulted"}}
 	if !ts {
 		reqs = append(reqs, core.Require{Counter: "envelope-verify-route", Why: "envelope Verify route never taken"}, core.Require{Counter: "envelope-sign-route", Why: "envelope Sign route never taken"})
 	}
 	return r.Finish(r.Pick(2000, 20000), reqs...)
+}
+
+// historyKinds: what replaces the issuer at HistPos+1 while the certificate it
+// issued (and every other one) stays the very same bytes. None of the
+// validators holds state, so the verdict on a chain may not depend on which
+// chains the process validated before: every step is judged by the reference
+// predicate on that step's chain alone.
+var historyKinds = []string{"issuer-renamed-same-key", "issuer-rekeyed-same-name", "issuer-reissued-without-certsign", "issuer-reissued-not-a-ca"}
+
+func historyCases(ts bool) []*Case {
+	var out []*Case
+	for n := 2; n <= 4; n++ {
+		for mix := 0; mix < 4; mix++ {
+			for pos := 0; pos < n-1; pos++ {
+				for _, k := range historyKinds {
+					out = append(out, &Case{TS: ts, Len: n, KeyMix: mix, TimeOf: -1, History: k, HistPos: pos})
+				}
+			}
+		}
+	}
+	return out
+}
+
+func history(r *core.Run, c *Case) {
+	d := baseDesc(c.Len, c.KeyMix, c.TS)
+	ch, err := pki.Build(d.specs...)
+	if err != nil || c.HistPos+1 >= c.Len {
+		r.Count("unbuildable", 1)
+		return
+	}
+	good := ch.Certs
+	ip := c.HistPos + 1
+	spec := *d.specs[ip]
+	switch c.History {
+	case "issuer-renamed-same-key":
+		spec.CN += "-under-another-name"
+	case "issuer-rekeyed-same-name":
+		spec.Key = pki.K(keyMixes[c.KeyMix%len(keyMixes)][ip], 7+ip)
+	case "issuer-reissued-without-certsign":
+		spec.KU = x509.KeyUsageCRLSign
+	case "issuer-reissued-not-a-ca":
+		spec.BC = pki.BCLeaf
+	}
+	spec.Serial = new(big.Int).Add(good[ip].SerialNumber, big.NewInt(250))
+	var parent *x509.Certificate
+	var pk *pki.Key
+	if ip < c.Len-1 {
+		parent, pk = good[ip+1], d.specs[ip+1].Key
+	}
+	twin, err := pki.Issue(&spec, parent, pk)
+	if err != nil {
+		r.Count("unbuildable", 1)
+		return
+	}
+	variant := append([]*x509.Certificate{}, good...)
+	variant[ip] = twin
+	pur := purpose.CodeSigning
+	if c.TS {
+		pur = purpose.Timestamping
+	}
+	v := sharedValidator(pur)
+	type step struct {
+		name  string
+		certs []*x509.Certificate
+	}
+	steps := []step{{"variant (first contact)", variant}, {"conforming", good}, {"variant again", variant}, {"conforming again", good}, {"variant a third time", variant}}
+	for si, st := range steps {
+		var want bool
+		if c.TS {
+			want = refmodel.TimestampingChainOK(st.certs)
+		} else {
+			want = refmodel.CodeSigningChainOK(st.certs, nil)
+		}
+		var verr, rerr error
+		var rs any
+		p := core.Guard(func() {
+			if c.TS {
+				verr = nx509.ValidateTimestampingCertChain(st.certs)
+			} else {
+				verr = nx509.ValidateCodeSigningCertChain(st.certs, nil)
+			}
+			res, e := v.ValidateContext(context.Background(), revocation.ValidateContextOptions{CertChain: st.certs})
+			rerr = e
+			if res != nil {
+				rs = res
+			}
+		})
+		r.Eval(2)
+		r.Count("history-steps", 1)
+		if p != nil {
+			r.Violation("history:"+c.History+":panicked", fmt.Sprintf("%s: step %d (%s) panicked: %s", c.desc(), si+1, st.name, p.Value), c)
+			return
+		}
+		if (verr == nil) != want {
+			r.Violation(fmt.Sprintf("history:%s:validator-says-%v-reference-says-%v", c.History, verr == nil, want),
+				fmt.Sprintf("%s: step %d (%s): the chain validator says %v (err=%v), the reference predicate says %v; every certificate but the one at position %d is byte-identical in both chains of this history", c.desc(), si+1, st.name, verr == nil, verr, want, ip), c)
+			return
+		}
+		if (rerr == nil) != want || (rerr != nil && (!sims.IsInvalidChain(rerr) || rs != nil)) {
+			r.Violation(fmt.Sprintf("history:%s:revocation-validator-says-%v-reference-says-%v", c.History, rerr == nil, want),
+				fmt.Sprintf("%s: step %d (%s): the revocation validator for this purpose returned err=%v, the reference predicate says %v", c.desc(), si+1, st.name, rerr, want), c)
+			return
+		}
+		if want {
+			r.Count("history-accepted", 1)
+		} else {
+			r.Count("history-rejected", 1)
+		}
+	}
 }
 
 func replay(r *core.Run, path string, ts bool) int {
@@ -884,6 +1005,10 @@ func replay(r *core.Run, path string, ts bool) int {
 		return core.ExitInconclusive
 	}
 	fmt.Println("case:", c.desc())
+	if c.History != "" {
+		history(r, &c)
+		return r.Finish(0)
+	}
 	execute(r, &c, true)
 	return r.Finish(0)
 }
